@@ -11,9 +11,12 @@
   C19.LAZY  the fallback is started only when it is not running and the primary was invalid or
             failed, judged by the same validity predicate as everywhere else; once running the
             synchronised path is taken.
-  C19.SYNC  _synchronize_and_fetch_fallback: everything read from the fallback stream is kept in
-            _latest_fallback_sample; `primary older than fallback -> None` is tested on every call;
-            the catch-up loop runs while the primary is newer and advances only the fallback.
+  C19.SYNC  _synchronize_and_fetch_fallback (as one unit with its private helpers): everything read from the
+            fallback stream is in _latest_fallback_sample before the routine can be left or await again;
+            `primary older than fallback -> None` is tested on every call; the catch-up loop runs while the
+            primary is newer and advances only the fallback.  "The cached sample" is the attribute or a local
+            that provably holds its current value (_c06_util.AliasStates), so a local mirror is read like the
+            attribute -- and a mirror that is written back late is not.
   C19.ESYNC a sample read straight from the fallback stream is returned to the round only on paths that consult
             the synchronisation state or compare a timestamp (the primary-error path does not: finding F12).
   C19.BUF   the fallback engine's receiver is created with the default capacity (like every other
@@ -25,6 +28,8 @@
   C19.PAIR  the two places that decide which components back which meter agree: the device predicates under which
             a meter's successors are its fallback == the device side of the (device, meter) pair table, and every
             pair is the one the component graph defines (`is_X_meter` == METER whose successors are all `is_X`).
+            The pair table is obtained by executing the two-candidate predicate for every combination of
+            candidate kinds (PairInterp), whatever its spelling (and-chain, any() over a table, dict, helper).
 
 LAZY / ERR are decided per scenario (fallback configured / running, received primary valid) on the CFG;
 roles are bound by dataflow (sa/props/_c06_util.py).
@@ -39,7 +44,7 @@ from ..engine.cfg import own_parts
 from ..engine.report import AnalysisError, Run
 from ..engine.resolver import Program, body_walk
 from ..engine.util import canon, canon_total, find_calls, method_call, u
-from ._c06_util import EVAL_CLS, resyncs_on_divergence, VALID_HINT, Flow, HelperCalls, indent_of, inline_all, is_validity_call, validity_name, lifted, names_eq, pruned, unawait, seg, spliced, src_patch, stmt_patch, truth_atom
+from ._c06_util import EVAL_CLS, AliasStates, expr_guards, tri, resyncs_on_divergence, VALID_HINT, Flow, HelperCalls, indent_of, inline_all, is_validity_call, validity_name, lifted, names_eq, pruned, unawait, seg, spliced, src_patch, stmt_patch, truth_atom
 
 STEPS = "timeseries.formula_engine._formula_steps"
 MF = f"{STEPS}:MetricFetcher"
@@ -355,13 +360,15 @@ def _fallback_model(fl: Flow) -> tuple[Any, Any, Any, list[tuple[int, ast.Call]]
                     return enc == ("nan" if e.func.attr == "isnan" else "inf")
             return None
 
-        base = pruned(fl.cfg, lifted(fl, atom, scenario=lambda _f: memo[key]), normal_only=normal_only)
+        full_atom = lifted(fl, atom, scenario=lambda _f: memo[key])
+        base = pruned(fl.cfg, full_atom, normal_only=normal_only)
 
         def ok(a: int, b: int, lab: str) -> bool:
             if received is not None and a in recv_nodes and lab.startswith("exc:") == received:
                 return False
             return base(a, b, lab)
 
+        ok.atom = full_atom  # type: ignore[attr-defined]  # the scenario's verdict on a condition evaluated at a node
         memo[key] = ok
         return ok
 
@@ -376,11 +383,22 @@ def check_plain_primary(run: Run, prog: Program, rule: str) -> None:
     fl = Flow(prog, fetch_unit(prog))
     cfg = fl.cfg
     is_fb, _aw, scenario, _recv = _fallback_model(fl)
+    unconfigured = scenario(configured=False)
+
+    def evaluated(x: ast.AST, nid: int) -> bool:
+        """Without a fallback, is the sub-expression x of node nid evaluated at all?  (`fb is not None and fb.is_running`,
+        `fb.name if fb else ""`: an earlier operand / the test of the conditional expression may shield it.)"""
+        for test, need in expr_guards(fl, x):
+            v = tri(test, lambda e: unconfigured.atom(e, nid))
+            if v is not None and v != need:
+                return False
+        return True
+
     derefs = [n.id for n in cfg.nodes if n.ast is not None and n.id in fl.live and any(
-        isinstance(x, ast.Attribute) and isinstance(x.ctx, ast.Load) and is_fb(x.value, n.id)
+        isinstance(x, ast.Attribute) and isinstance(x.ctx, ast.Load) and is_fb(x.value, n.id) and evaluated(x, n.id)
         for part in own_parts(n) if not isinstance(n.ast, (ast.FunctionDef, ast.AsyncFunctionDef)) for x in ast.walk(part))]
     handed = [nid for nid, c in fl.calls(lambda c: method_call(c, "self", "fetch_next_with_fallback"))]
-    wit = cfg.path(cfg.entry, derefs + handed, edge_ok=scenario(configured=False))
+    wit = cfg.path(cfg.entry, derefs + handed, edge_ok=unconfigured)
     plain = cfg.path(cfg.entry, [cfg.exit], edge_ok=scenario(normal_only=True, configured=False))
     run.check(wit is None and plain is not None, rule, raw.qual, "if self._fallback is None: primary only",
               "the fallback is dereferenced without checking that one is configured", node=raw.node, file=raw.file,
@@ -499,15 +517,25 @@ def check_lazy(run: Run, prog: Program) -> None:
 
 
 def check_sync(run: Run, prog: Program, rule: str = "C19.SYNC") -> None:
-    fn = prog.func(f"{MF}.{fallback_sync_name(prog)}")
-    run.analysed(fn.qual)
+    """Stated on the synchronisation routine as one unit of behaviour (private helpers read in: the guarded read of the
+    fallback stream may live in a helper of its own) and on *values*, not spellings: "the cached fallback sample" is the
+    attribute itself or a local that holds the attribute's current value whenever the statement is reached
+    (AliasStates: `latest = self._latest_fallback_sample` ... `latest = await self._read_and_remember(..)`)."""
+    raw = prog.func(f"{MF}.{fallback_sync_name(prog)}")
+    run.analysed(raw.qual)
+    vname = validity_name(prog)
+    fn = inline_all(prog, raw, stop=({vname} if vname else set()))
+    for nm in sorted(getattr(fn.node, "_inlined", ())):
+        run.analysed(f"{MF}.{nm}")
     fl = Flow(prog, fn)
     cfg = fl.cfg
     if len(fn.params) < 3:
         raise AnalysisError(f"{fn.qual}: expected (self, primary sample, fallback fetcher)")
     prim, fb = fn.params[1], fn.params[2]
-    LATEST = "self._latest_fallback_sample"
+    ATTR = "_latest_fallback_sample"
+    LATEST = f"self.{ATTR}"
     PTS = f"{prim}.timestamp"
+    alias = AliasStates(fl, ATTR)
 
     def is_param(e: ast.AST, nid: int | None, name: str, flow: Flow | None = None) -> bool:
         """`e` denotes this function's parameter `name` (also from inside a private helper it was passed to)."""
@@ -517,10 +545,13 @@ def check_sync(run: Run, prog: Program, rule: str = "C19.SYNC") -> None:
     def roles(test: ast.AST, nid: int) -> dict[str, str]:
         """Operands that denote the primary sample's timestamp (directly or through a local; the
         parameter is never re-bound) are read as `<primary>.timestamp`.  The cached fallback sample is
-        mutable state: only a direct read of it counts."""
+        mutable state: a direct read of it counts, and a local that holds its current value at this very node."""
         out: dict[str, str] = {}
         for x in ast.walk(test):
             if isinstance(x, (ast.Name, ast.Attribute)) and u(x) != PTS:
+                if isinstance(x, ast.Attribute) and x.attr == "timestamp" and isinstance(x.value, ast.Name) and alias.same(x.value, nid):
+                    out[u(x)] = f"{LATEST}.timestamp"
+                    continue
                 o = fl.origin(x, nid)
                 if o and all(q.kind == "expr" and isinstance(q.node, ast.Attribute) and q.node.attr == "timestamp"
                              and is_param(q.node.value, q.nid, prim) for q in o):  # type: ignore[arg-type]
@@ -564,10 +595,26 @@ def check_sync(run: Run, prog: Program, rule: str = "C19.SYNC") -> None:
                       f"the fallback stream is read at {len(recv)} place(s) only: both the first use (nothing cached yet) and "
                       "the catch-up loop (cached sample older than the primary) must read it", node=fn.node, file=fn.file)
         return
+
+    def kept_at_once(sflow: Flow, r: int, call: ast.Call) -> bool:
+        """The sample read at node r is in the cache before anything else can happen: the statement stores the awaited
+        read in the attribute, or binds it to a local and on every way on from there (normal completion) that very value
+        is in the attribute before the function is left, anything is awaited or the stream is read again."""
+        s = sflow.cfg.nodes[r].ast
+        if sflow.cfg.nodes[r].kind != "stmt" or not isinstance(s, (ast.Assign, ast.AnnAssign)) or not isinstance(s.value, ast.Await) \
+                or s.value.value is not call:
+            return False
+        tgts = s.targets if isinstance(s, ast.Assign) else [s.target]
+        if not all(isinstance(t, ast.Name) or u(t) == LATEST for t in tgts):
+            return False
+        scfg = sflow.cfg
+        obl = AliasStates(sflow, ATTR, mark=r)
+        stops = [scfg.exit] + [n.id for n in scfg.nodes if n.id in sflow.live and n.ast is not None and scfg.is_await(n.id)]
+        return not any(obl.pending(x) for x in stops)
+
     for sflow, r, _c in sites:
         s = sflow.cfg.nodes[r].ast
-        ok = isinstance(s, (ast.Assign, ast.AnnAssign)) and u(s.targets[0] if isinstance(s, ast.Assign) else s.target) == LATEST \
-            and sflow.cfg.is_await(r) and isinstance(s.value, ast.Await)
+        ok = kept_at_once(sflow, r, _c)
         direct = isinstance(sflow._parent.get(id(_c)), ast.Await)
         run.check(direct, rule, fn.qual, f"await {u(_c)} (awaited as it is)",
                   f"the read of the fallback stream is not awaited directly (`{u(s)[:80]}`): wrapped in a timeout / shield / task it "
@@ -592,7 +639,8 @@ def check_sync(run: Run, prog: Program, rule: str = "C19.SYNC") -> None:
     if not ok:
         return
     t, w = older[0], loops[0]
-    rets_val = [n.id for n in cfg.nodes if isinstance(n.ast, ast.Return) and u(n.ast.value) == LATEST]
+    rets_val = [n.id for n in cfg.nodes if isinstance(n.ast, ast.Return) and n.kind == "stmt" and n.id in fl.live
+                and n.ast.value is not None and alias.same(n.ast.value, n.id)]
     run.check(len(rets_val) == 1, rule, fn.qual, f"return {LATEST}", "the synchronised sample is not returned",
               node=fn.node, file=fn.file)
     # `older` test on every call that can return a sample, and before the catch-up loop
@@ -617,23 +665,15 @@ def check_sync(run: Run, prog: Program, rule: str = "C19.SYNC") -> None:
     ok = any(r in body for r in recv)
     run.check(ok, rule, fn.qual, "catch-up loop advances the fallback", "the catch-up loop does not read the "
               "fallback stream", node=w.ast, file=fn.file)
-    # first use: while nothing has been read from the fallback yet, it is read before anything is compared / returned
-    def none_atom(is_none: bool) -> Any:
-        def atom(e: ast.AST, _nid: int) -> bool | None:
-            ta = truth_atom(e)
-            if ta is not None and u(ta[0]) == LATEST:
-                return is_none if ta[1] else not is_none
-            if u(e) == LATEST:
-                return not is_none
-            return None
-        return lifted(fl, atom)
-
-    mentions = [t2 for t2 in cfg.nodes if t2.kind in ("test", "while") and t2.ast is not None and t2.id in fl.live and any(
-        (lambda ta: ta is not None and u(ta[0]) == LATEST)(truth_atom(x)) for x in ast.walk(t2.ast if t2.kind == "test" else t2.ast.test))]  # type: ignore[union-attr]
-    wit = cfg.path(cfg.entry, [t.id] + rets_val, avoid=recv, edge_ok=pruned(cfg, none_atom(True), normal_only=False))
-    lazy = cfg.path(cfg.entry, [t.id], avoid=[r for r in recv if cfg.nodes[r].kind == "stmt"],
-                    edge_ok=pruned(cfg, none_atom(False), normal_only=False)) is not None
-    run.check(len(mentions) == 1 and wit is None and lazy, rule, fn.qual, f"first use: {LATEST} is None -> fetch",
+    # first use: while nothing has been read from the fallback yet (the cache is empty when the routine is entered), it
+    # is read before anything is compared / returned; with a cached sample the older-test is reached without a read.
+    # Both are explored on the states of the cache and its mirrors, so it does not matter how the emptiness is tested
+    # (on the attribute, on a local copy, through a flag)
+    empty = AliasStates(fl, ATTR, init="none", avoid=recv)
+    hit = [x for x in [t.id] + rets_val if empty.reached(x)]
+    wit = cfg.path(cfg.entry, hit, avoid=recv) if hit else None
+    filled = AliasStates(fl, ATTR, init="some", avoid=[r for r in recv if cfg.nodes[r].kind == "stmt"])
+    run.check(not hit and filled.reached(t.id), rule, fn.qual, f"first use: {LATEST} is None -> fetch",
               "the first fallback sample is not fetched lazily", node=fn.node, file=fn.file, path=cfg.describe_path(wit))
 
 
@@ -964,29 +1004,119 @@ def graph_meter_table(prog: Program) -> tuple[dict[str, str], set[str]]:
     return table, preds
 
 
+class PairInterp(HelperCalls, Interp):
+    """Executes the (device, meter) pairing predicate for ONE concrete pair of candidates: each candidate is a
+    component of one kind (named by the graph predicate that holds for it, or None for "anything else"); a graph
+    predicate applied to a candidate is true iff it is the candidate's kind.  The relation the function computes is
+    read off its results -- whether it is spelled as a chain of `d(f) and m(p)`, as `any()` over a table of predicate
+    pairs, as an if-chain or through private helpers makes no difference."""
+
+    def __init__(self, preds: set[str]) -> None:
+        super().__init__()
+        self.preds = preds
+
+    def unknown_name(self, ident: str, node: ast.AST) -> Any:
+        if ident in ("any", "all", "bool", "len", "tuple", "list", "iter", "next"):
+            return ("builtin", ident)
+        mod = self.helper_module
+        if mod is not None and ident in mod.functions:
+            return super().unknown_name(ident, node)
+        return Obj(f"<{ident}>")
+
+    def get_attr(self, base: Any, attr: str, node: ast.AST) -> Any:
+        if isinstance(base, Obj) and base.cls != "cand" and attr in self.preds:
+            return ("pred", attr)
+        if isinstance(base, Obj) and base.cls not in ("self", "cand") and attr not in base.fields:
+            return Obj(f"{base.cls}.{attr}")
+        return super().get_attr(base, attr, node)
+
+    def apply(self, fn: Any, pos: list[Any], kw: dict[str, Any], node: ast.AST) -> Any:
+        if isinstance(fn, tuple) and fn and fn[0] == "pred":
+            args = list(pos) + list(kw.values())
+            if len(args) != 1 or not (isinstance(args[0], Obj) and args[0].cls == "cand"):
+                raise AnalysisError(f"graph predicate {fn[1]} applied to something other than a candidate (line {getattr(node, 'lineno', '?')})")
+            return args[0].fields["kind"] == fn[1]
+        if isinstance(fn, Obj) and fn.cls not in ("self", "cand"):
+            return Obj(f"{fn.cls}()")
+        return super().apply(fn, pos, kw, node)
+
+
+def pair_relation(prog: Program, fn: Any, kinds: list[str | None], preds: set[str]) -> set[tuple[str | None, str | None]]:
+    """{(kind of the 1st candidate, kind of the 2nd)} for which the two-candidate predicate `fn` answers True."""
+    ps = [p for p in fn.params if p != "self"]
+    if len(ps) != 2:
+        raise AnalysisError(f"{fn.qual}: expected two candidates")
+    rel: set[tuple[str | None, str | None]] = set()
+    for k0 in kinds:
+        for k1 in kinds:
+            it = PairInterp(preds)
+            it.bind_helpers(prog, fn)
+            outs = it.explore(fn.node, lambda: {"self": Obj("self"), ps[0]: Obj("cand", kind=k0), ps[1]: Obj("cand", kind=k1)})
+            if len(outs) != 1 or outs[0].kind != "return" or not isinstance(outs[0].value, bool):
+                raise AnalysisError(f"{fn.qual}: the pairing predicate has no definite answer for ({k0}, {k1})")
+            if outs[0].value:
+                rel.add((k0, k1))
+    return rel
+
+
+def _syntactic_pairs(m: Any, preds: set[str], table: dict[str, str]) -> list[tuple[str, str, ast.AST, str, str]]:
+    found = []
+    for b in (x for x in ast.walk(m.node) if isinstance(x, ast.BoolOp) and isinstance(x.op, ast.And)):
+        calls = [v for v in b.values if isinstance(v, ast.Call) and isinstance(v.func, ast.Attribute) and v.func.attr in preds and len(v.args) == 1]
+        ms = [v for v in calls if v.func.attr in table]  # type: ignore[union-attr]
+        ds = [v for v in calls if v.func.attr not in table]  # type: ignore[union-attr]
+        if ms and ds:
+            if len(ms) != 1 or len(ds) != 1 or len(calls) != len(b.values):
+                raise AnalysisError(f"{m.qual}: `{u(b)}` is not a (device, meter) pair")
+            found.append((ds[0].func.attr, ms[0].func.attr, b, u(ds[0].args[0]), u(ms[0].args[0])))  # type: ignore[union-attr]
+    return found
+
+
 def pairing_sites(prog: Program) -> tuple[Any, list[tuple[str, str, ast.AST]], Any, dict[str, ast.AST]]:
     """(pair function, [(device predicate, meter predicate, node)], meter function, {predicate applied to the meter's successors: node}),
-    both functions bound by role among FormulaGenerator's methods."""
+    both functions bound by role among FormulaGenerator's methods.  The pair function is the method that refers to graph
+    predicates of both sides and takes two candidates; its relation is obtained by executing it for every combination
+    of candidate kinds (PairInterp), the spelled-out `d(x) and m(y)` reading being the fallback."""
     table, preds = graph_meter_table(prog)
     cls = prog.cls(FG)
     pair_fn, pairs = None, []
+    hits: list[tuple[Any, list[tuple[str, str, ast.AST]], list[Any]]] = []
     for m in cls.methods.values():
-        found = []
-        for b in (x for x in ast.walk(m.node) if isinstance(x, ast.BoolOp) and isinstance(x.op, ast.And)):
-            calls = [v for v in b.values if isinstance(v, ast.Call) and isinstance(v.func, ast.Attribute) and v.func.attr in preds and len(v.args) == 1]
-            ms = [v for v in calls if v.func.attr in table]  # type: ignore[union-attr]
-            ds = [v for v in calls if v.func.attr not in table]  # type: ignore[union-attr]
-            if ms and ds:
-                if len(ms) != 1 or len(ds) != 1 or len(calls) != len(b.values):
-                    raise AnalysisError(f"{m.qual}: `{u(b)}` is not a (device, meter) pair")
-                found.append((ds[0].func.attr, ms[0].func.attr, b, u(ds[0].args[0]), u(ms[0].args[0])))  # type: ignore[union-attr]
-        if found:
-            if pair_fn is not None:
-                raise AnalysisError(f"{cls.qual}: two methods pair devices with meters ({pair_fn.name}, {m.name})")
-            pair_fn = m
-            if len({(d, p) for _a, _b, _n, d, p in found}) != 1 or found[0][3] == found[0][4]:
+        # the predicate may hand part of its work to private helpers (`_meter_kind_of(device)`): what it refers to is
+        # what it and the helpers it reaches refer to
+        reach = [f for f in _self_callees(prog, cls, m) if f is m or (f.name.startswith("_") and not f.name.startswith("__"))]
+        refs = {x.attr for f in reach for x in ast.walk(f.node) if isinstance(x, ast.Attribute) and isinstance(x.ctx, ast.Load) and x.attr in preds}
+        if not (refs & set(table)) or not (refs - set(table) - {"is_grid_meter"}) or len([p_ for p_ in m.params if p_ != "self"]) != 2:
+            continue
+        found: list[tuple[str, str, ast.AST]] = []
+        try:
+            kinds: list[str | None] = sorted(p for p in preds if p in table or p in table.values()) + [None]
+            rel = pair_relation(prog, m, kinds, preds)
+            if not rel:
+                raise AnalysisError(f"{m.qual}: the pairing predicate is never true")
+            fwd = all(a in table for a, _b in rel)      # (meter, device): the primary candidate comes first
+            bwd = all(b in table for _a, b in rel)
+            if fwd == bwd or any(a is None or b is None for a, b in rel):
                 raise AnalysisError(f"{m.qual}: the pairs do not test one fallback candidate and one primary candidate")
-            pairs = [(a, b_, n) for a, b_, n, _d, _p in found]
+            for a, b in sorted(rel, key=repr):
+                mt, dv = (a, b) if fwd else (b, a)
+                node = next((x for f in reach for x in ast.walk(f.node) if isinstance(x, ast.Attribute) and x.attr == mt), m.node)
+                found.append((str(dv), str(mt), node))
+        except AnalysisError:
+            syn = _syntactic_pairs(m, preds, table)
+            if not syn:
+                continue
+            if len({(d, p) for _a, _b, _n, d, p in syn}) != 1 or syn[0][3] == syn[0][4]:
+                raise AnalysisError(f"{m.qual}: the pairs do not test one fallback candidate and one primary candidate") from None
+            found = [(a, b_, n) for a, b_, n, _d, _p in syn]
+        if found:
+            hits.append((m, found, reach))
+    # a two-candidate wrapper around the predicate computes the same relation: the outermost one is the one in use
+    outer = [h for h in hits if not any(h[0] is not g[0] and h[0] in g[2] for g in hits)]
+    if len(outer) > 1:
+        raise AnalysisError(f"{cls.qual}: two methods pair devices with meters ({outer[0][0].name}, {outer[1][0].name})")
+    if outer:
+        pair_fn, pairs = outer[0][0], outer[0][1]
     if pair_fn is None:
         raise AnalysisError(f"{cls.qual}: no method pairs a device predicate with a meter predicate")
     meter_fn, applied = None, {}
@@ -1097,11 +1227,18 @@ def build_controls(prog: Program) -> list[tuple[str, str, str, str, str]]:
     # of the primary swaps the primary out for good
     if sy is not None:
         for w in (x for x in ast.walk(sy.node) if isinstance(x, ast.While)):
-            for c in (x for x in ast.walk(w) if isinstance(x, ast.Call) and method_call(x, None, "receive")):
-                txt = seg(sy.module, c)
-                add("catch-up read under a timeout", STEPS, stmt_patch(
-                    sy, c, lambda t, txt=txt: t.replace(f"await {txt}", f"await asyncio.wait_for({txt}, 1.0)", 1)), "C19.SYNC")
-                break
+            # the read sits in the loop, or in the private helper the loop calls for it
+            holders = [(sy, w)] + [(mfc.methods[c.func.attr], mfc.methods[c.func.attr].node) for c in ast.walk(w)  # type: ignore[union-attr]
+                                   if isinstance(c, ast.Call) and isinstance(c.func, ast.Attribute) and u(c.func.value) == "self"
+                                   and c.func.attr.startswith("_") and c.func.attr in mfc.methods]
+            for holder, scope in holders:
+                c = next((x for x in ast.walk(scope) if isinstance(x, ast.Call) and method_call(x, None, "receive")
+                          and u(x.func.value) != "self._stream"), None)  # type: ignore[union-attr]
+                if c is not None:
+                    txt = seg(holder.module, c)
+                    add("catch-up read under a timeout", STEPS, stmt_patch(
+                        holder, c, lambda t, txt=txt: t.replace(f"await {txt}", f"await asyncio.wait_for({txt}, 1.0)", 1)), "C19.SYNC")
+                    break
             break
     for t_ in (x for x in ast.walk(fw.node) if isinstance(x, ast.Try)):
         if t_.handlers and any(isinstance(c, ast.Call) and method_call(c, "self._stream", "receive") for b in t_.body for c in ast.walk(b)):
